@@ -59,6 +59,14 @@ def dflt(a):
     return _scaled(a)
 
 
+def _aff(s, k=3, off=0):
+    return s * k + off
+
+
+def kwo(x, y):
+    return _aff(x, off=y)
+
+
 def dsum(d):
     return float(d.sum())
 
@@ -102,7 +110,7 @@ def mad(x, p, y):
 
 
 ARITY = {"one": 0, "two": 0, "id": 1, "neg": 1, "dbl": 1, "inc": 1, "step": 1, "pos": 1, "dsum": 1, "loopinc": 1, "dflt": 1,
-         "add": 2, "sub": 2, "mul": 2, "sel": 2, "cut": 2, "cap": 2, "swp": 2, "mad": 3}
+         "add": 2, "sub": 2, "mul": 2, "sel": 2, "cut": 2, "cap": 2, "swp": 2, "kwo": 2, "mad": 3}
 FNS = {n: globals()[n] for n in ARITY}
 
 
